@@ -25,10 +25,12 @@ Inductive upc :=
 | UB3      (* beginUse: second retired.Load() returned true; must undo *)
 | UUsing   (* beginUse returned true; inside forwarder.ForwardDNS *)
 | UE1      (* endUse: inFlight.Add(-1) returned 0; retired.Load() still to come *)
+| UE2      (* endUse: retired.Load() returned true; the re-read inFlight.Load() still to come *)
 | UOk      (* finished, had the forwarder *)
 | UFail.   (* finished, beginUse returned false *)
 
-(* retire(): retired.Store(true) ; if inFlight.Load() == 0 { closeNow } *)
+(* endUse():  if inFlight.Add(-1) == 0 && retired.Load() && inFlight.Load() == 0 { closeNow }
+   retire():  retired.Store(true) ; if inFlight.Load() == 0 { closeNow } *)
 Inductive rpc := RIdle | RStored | RDone.
 
 Record fstate := {
@@ -36,9 +38,8 @@ Record fstate := {
   f_retired : bool;
   f_closed : bool;       (* closeOnce has fired: forwarder.Close() ran *)
   f_calls : N;           (* number of closeNow() invocations *)
-  f_bad : bool;          (* ghost: Close ran while some user was inside ForwardDNS, or a user entered after *)
-  f_window : bool;       (* ghost: another goroutine took a step while a user sat between the two atomic
-                            operations of endUse *)
+  f_bad : bool;          (* ghost: Close ran while some user was inside ForwardDNS, or while not retired, or
+                            with inFlight <> 0 at the closing step's load; or a user entered after Close *)
   f_users : list upc;
   f_rets : list rpc
 }.
@@ -46,8 +47,7 @@ Record fstate := {
 Inductive fev := FSpawnU | FSpawnR | FU (i : nat) | FR (j : nat).
 
 Definition finit : fstate :=
-  {| f_inflight := 0%Z; f_retired := false; f_closed := false; f_calls := 0; f_bad := false;
-     f_window := false; f_users := []; f_rets := [] |}.
+  {| f_inflight := 0%Z; f_retired := false; f_closed := false; f_calls := 0; f_bad := false; f_users := []; f_rets := [] |}.
 
 Fixpoint set_nth {A} (l : list A) (i : nat) (x : A) : list A :=
   match l, i with
@@ -57,7 +57,7 @@ Fixpoint set_nth {A} (l : list A) (i : nat) (x : A) : list A :=
   end.
 
 Definition is_using (p : upc) : bool := match p with UUsing => true | _ => false end.
-Definition is_ue1 (p : upc) : bool := match p with UE1 => true | _ => false end.
+Definition is_ue1 (p : upc) : bool := match p with UE1 | UE2 => true | _ => false end.
 Definition counted (p : upc) : bool := match p with UB2 | UB3 | UUsing => true | _ => false end.
 Definition user_quiet (p : upc) : bool := match p with UIdle | UOk | UFail => true | _ => false end.
 Definition ret_quiet (r : rpc) : bool := match r with RIdle | RDone => true | _ => false end.
@@ -66,28 +66,17 @@ Definition is_rdone (r : rpc) : bool := match r with RDone => true | _ => false 
 (* closeNow(): sync.Once around forwarder.Close() *)
 Definition do_close (s : fstate) : fstate :=
   {| f_inflight := f_inflight s; f_retired := f_retired s; f_closed := true; f_calls := f_calls s + 1;
-     f_bad := f_bad s || (negb (f_closed s) && existsb is_using (f_users s));
-     f_window := f_window s; f_users := f_users s; f_rets := f_rets s |}.
+     f_bad := f_bad s || (negb (f_closed s) && (existsb is_using (f_users s) || negb (f_retired s)
+                                                 || negb (f_inflight s =? 0)%Z));
+     f_users := f_users s; f_rets := f_rets s |}.
 
 Definition with_user (s : fstate) (i : nat) (p : upc) (infl : Z) (bad : bool) : fstate :=
   {| f_inflight := infl; f_retired := f_retired s; f_closed := f_closed s; f_calls := f_calls s;
-     f_bad := bad; f_window := f_window s; f_users := set_nth (f_users s) i p; f_rets := f_rets s |}.
+     f_bad := bad; f_users := set_nth (f_users s) i p; f_rets := f_rets s |}.
 
 Definition with_ret (s : fstate) (j : nat) (r : rpc) (retired : bool) : fstate :=
   {| f_inflight := f_inflight s; f_retired := retired; f_closed := f_closed s; f_calls := f_calls s;
-     f_bad := f_bad s; f_window := f_window s; f_users := f_users s; f_rets := set_nth (f_rets s) j r |}.
-
-Definition with_window (s : fstate) (w : bool) : fstate :=
-  {| f_inflight := f_inflight s; f_retired := f_retired s; f_closed := f_closed s; f_calls := f_calls s;
-     f_bad := f_bad s; f_window := w; f_users := f_users s; f_rets := f_rets s |}.
-
-(* some user other than [me] sits at UE1 *)
-Fixpoint other_at_ue1 (us : list upc) (me : option nat) (k : nat) : bool :=
-  match us with
-  | [] => false
-  | p :: t => (is_ue1 p && negb (match me with Some i => Nat.eqb i k | None => false end))
-              || other_at_ue1 t me (S k)
-  end.
+     f_bad := f_bad s; f_users := f_users s; f_rets := set_nth (f_rets s) j r |}.
 
 Definition user_step (s : fstate) (i : nat) : fstate :=
   match nth_error (f_users s) i with
@@ -104,8 +93,10 @@ Definition user_step (s : fstate) (i : nat) : fstate :=
                if (n =? 0)%Z then do_close s' else s'
       | UUsing => let n := (f_inflight s - 1)%Z in
                   if (n =? 0)%Z then with_user s i UE1 n (f_bad s) else with_user s i UOk n (f_bad s)
-      | UE1 => let s' := with_user s i UOk (f_inflight s) (f_bad s) in
-               if f_retired s then do_close s' else s'
+      | UE1 => if f_retired s then with_user s i UE2 (f_inflight s) (f_bad s)
+               else with_user s i UOk (f_inflight s) (f_bad s)
+      | UE2 => let s' := with_user s i UOk (f_inflight s) (f_bad s) in
+               if (f_inflight s =? 0)%Z then do_close s' else s'
       | UOk | UFail => s
       end
   end.
@@ -122,13 +113,13 @@ Definition ret_step (s : fstate) (j : nat) : fstate :=
 Definition fstep (s : fstate) (e : fev) : fstate :=
   match e with
   | FSpawnU => {| f_inflight := f_inflight s; f_retired := f_retired s; f_closed := f_closed s;
-                  f_calls := f_calls s; f_bad := f_bad s; f_window := f_window s;
+                  f_calls := f_calls s; f_bad := f_bad s;
                   f_users := f_users s ++ [UIdle]; f_rets := f_rets s |}
   | FSpawnR => {| f_inflight := f_inflight s; f_retired := f_retired s; f_closed := f_closed s;
-                  f_calls := f_calls s; f_bad := f_bad s; f_window := f_window s;
+                  f_calls := f_calls s; f_bad := f_bad s;
                   f_users := f_users s; f_rets := f_rets s ++ [RIdle] |}
-  | FU i => user_step (with_window s (f_window s || other_at_ue1 (f_users s) (Some i) 0)) i
-  | FR j => ret_step (with_window s (f_window s || other_at_ue1 (f_users s) None 0)) j
+  | FU i => user_step s i
+  | FR j => ret_step s j
   end.
 
 Definition frun (evs : list fev) : fstate := fold_left fstep evs finit.
@@ -359,13 +350,19 @@ Definition cacheable (m : message) : option centry :=
   | None => None
   end.
 
-(* forwardWithFallback + dialSend for one singleflight leader *)
-Definition resolve (fallback : bool) (k : ckey) (s : cstate) : resolution * cstate :=
+(* checkDnsResponseQuestion: same type and class, same name ignoring case *)
+Definition question_checked (lq : question) (m : message) : bool :=
+  match m_q m with Some q => question_equiv lq q | None => false end.
+
+(* forwardWithFallback + dialSend for one singleflight leader asking lq *)
+Definition resolve (fallback : bool) (lq : question) (s : cstate) : resolution * cstate :=
+  let k := key_of lq in
   let '(r1, udp') := pop k (c_udp s) in
   let s1 := {| c_cache := c_cache s; c_udp := udp'; c_tcp := c_tcp s; c_calls := c_calls s ++ [k] |} in
   let finish (m : message) (s2 : cstate) :=
-    (* ResponseSelect refuses a response without a question section ("qName cannot be empty") *)
-    if match m_q m with None => true | Some _ => false end then (RErr, s2) else
+    (* a response whose question section is missing or differs from the request is an error: nothing
+       is relayed, nothing is cached, no fallback *)
+    if negb (question_checked lq m) then (RErr, s2) else
     match cacheable m with
     | Some e => (RMsg m true,
                  {| c_cache := kset k e (c_cache s2); c_udp := c_udp s2; c_tcp := c_tcp s2; c_calls := c_calls s2 |})
@@ -414,7 +411,7 @@ Fixpoint round_clients (packed pnew fallback : bool) (cache0 : list (ckey * cent
               let '(os, s') := round_clients packed pnew fallback cache0 rest resolved s in
               (waiter_outcome pnew c r :: os, s')
           | None =>
-              let '(r, s1) := resolve fallback k s in
+              let '(r, s1) := resolve fallback (cq_q c) s in
               let '(os, s') := round_clients packed pnew fallback cache0 rest ((k, r) :: resolved) s1 in
               (waiter_outcome pnew c r :: os, s')
           end
